@@ -48,6 +48,27 @@ def sample_params(dec, r, bias=0.5):
     return ps
 
 
+def corner_params(dec):
+    """every parameter at its minimum / at its maximum (all-zero and all-one bit patterns are where payloads collide
+    with markers, terminators and sentinels)"""
+    sp = param_specs(dec)
+    return [{n: lo for n, lo, hi in sp}, {n: hi for n, lo, hi in sp}]
+
+
+def space_size(dec):
+    t = 1
+    for _, lo, hi in param_specs(dec):
+        t *= (hi - lo + 1)
+    return t
+
+
+def all_params(dec):
+    import itertools
+    sp = param_specs(dec)
+    for vs in itertools.product(*[range(lo, hi + 1) for _, lo, hi in sp]):
+        yield dict(zip([s_[0] for s_ in sp], vs))
+
+
 def mid_params(dec):
     return {n: (lo + hi * 2) // 3 for n, lo, hi in param_specs(dec)}
 
